@@ -17,10 +17,10 @@ def run(ctx):
     rng = ctx.rng
     cases, info = [], {}
     cid = 0
-    for K in range(2, 6):
+    for K in range(1, 6):
         for L in range(1, 5):
             for assort in (0, 1):
-                for rep in range(ctx.budget(4, 60)):
+                for rep in range(ctx.budget(4, 60) if K > 1 else ctx.budget(1, 10)):
                     sub = rng.fork('a%d' % cid)
                     diag = [[sub.choice([0.0, round(sub.unit(), 5), round(9 * sub.unit(), 3), 1e-7, 2.0]) for _ in range(K)] for _ in range(L)]
                     data, style = files.render_affinity(sub, K, L, diag)
